@@ -3,7 +3,7 @@
    Part B: ball-tree k-nearest-neighbour query (no bound on points, dimension, leaf size, k). *)
 From Coq Require Import List ZArith QArith Qabs Bool Arith Lia Permutation Sorting.Sorted.
 From Gst Require Import lib.QAux C06.Model C06.Spec C06.Proofs C06.Proofs_select C06.Proofs_moving C06.Proofs_ball.
-From Gst Require Import C06.Knn C06.KnnE C06.Proofs_knn C06.Proofs_heap C06.Proofs_query C06.Proofs_sort C06.Proofs_sector.
+From Gst Require Import C06.Knn C06.KnnE C06.Proofs_knn C06.Proofs_heap C06.Proofs_query C06.Proofs_sort C06.Proofs_sector C06.Proofs_unique.
 Import ListNotations.
 
 (* ---------------------------------------------------------------------------------------------- *)
@@ -382,6 +382,44 @@ Proof.
 Qed.
 Print Assumptions C06_knn_manhattan.
 
+(* the answer is unique (ties excluded): two lists with the properties established by C06_knn list the same points in
+   the same order with the same distances *)
+Theorem C06_knn_unique : forall dist data q k res1 res2,
+  (forall i j, (i < length data)%nat -> (j < length data)%nat -> i <> j ->
+     ~ dist q (getp data i) == dist q (getp data j)) ->
+  knn_answer dist data q k res1 -> knn_answer dist data q k res2 ->
+  map snd res1 = map snd res2 /\
+  Forall2 (fun e1 e2 => exists v1 v2, fst e1 = Some v1 /\ fst e2 = Some v2 /\ v1 == v2) res1 res2.
+Proof. intros dist data q k res1 res2 H A1 A2. exact (knn_answer_unique dist data q H k res1 res2 A1 A2). Qed.
+Print Assumptions C06_knn_unique.
+
+(* corollary: the answer of the ball tree depends on the point coordinates, the query and k only.  Whatever the two
+   leaf sizes (hence whatever the shape of the tree, the order of the traversal and the content of the heap along
+   the way), the same points come back in the same order; nothing else -- such as the "default space" of the
+   library, which does not exist in the model -- can legitimately influence it (defect fixed by 453b8d386) *)
+Theorem C06_knn_independent : forall dist nfeat data (okp : pt -> Prop),
+  (forall idxs, okp (centroid nfeat data idxs)) ->
+  (forall i, (i < length data)%nat -> okp (getp data i)) ->
+  (forall a b, okp a -> okp b -> 0 <= dist a b) ->
+  (forall a b, okp a -> okp b -> dist a b == dist b a) ->
+  (forall a b c, okp a -> okp b -> okp c -> dist a c <= dist a b + dist b c) ->
+  forall leaf1 leaf2 k q res1 res2, okp q -> (0 < k)%nat ->
+  (forall i j, (i < length data)%nat -> (j < length data)%nat -> i <> j ->
+     ~ dist q (getp data i) == dist q (getp data j)) ->
+  knn_query dist data (btree_init dist nfeat data leaf1) k q = Some res1 ->
+  knn_query dist data (btree_init dist nfeat data leaf2) k q = Some res2 ->
+  map snd res1 = map snd res2 /\
+  Forall2 (fun e1 e2 => exists v1 v2, fst e1 = Some v1 /\ fst e2 = Some v2 /\ v1 == v2) res1 res2.
+Proof.
+  intros dist nfeat data okp H1 H2 H3 H4 H5 leaf1 leaf2 k q res1 res2 Hq Hk Hnt E1 E2.
+  apply (knn_answer_unique dist data q Hnt k).
+  - destruct (C06_knn dist nfeat data okp H1 H2 H3 H4 H5 leaf1 k q res1 Hq Hk E1) as [A [B [C [D E]]]].
+    repeat split; assumption.
+  - destruct (C06_knn dist nfeat data okp H1 H2 H3 H4 H5 leaf2 k q res2 Hq Hk E2) as [A [B [C [D E]]]].
+    repeat split; assumption.
+Qed.
+Print Assumptions C06_knn_independent.
+
 (* KNN::_query refuses k > n *)
 Theorem C06_knn_refused : forall dist data t k q, (length data < k)%nat -> knn_query dist data t k q = None.
 Proof. exact knn_query_refused. Qed.
@@ -393,6 +431,15 @@ Example C06_knn_nonvacuous :
               map snd (knn_spec manhattan knn_ex_data 3 [-2; -2]) = [2; 4; 0]%nat /\
               length (pts_of (btree_init manhattan 2 knn_ex_data 1)) = 7%nat.
 Proof. eexists. vm_compute. repeat split; reflexivity. Qed.
+
+(* four-dimensional data (the model has no default space): the same answer for leaf sizes 1, 2 and 40 *)
+Example C06_knn_independent_nonvacuous :
+  let data := [[1; 0; 2; 0]; [0; 3; 1; 2]; [3; 2; 2; 2]; [1; 1; 1; 0]; [5; 1; 0; 3]; [1; 1; 3; 1]] in
+  let ans leaf := match knn_query manhattan data (btree_init manhattan 4 data leaf) 4 [1; 1; 1; 1] with
+                  | Some r => map snd r | None => [] end in
+  ans 1%Z = [3; 5; 0; 1]%nat /\ ans 2%Z = ans 1%Z /\ ans 40%Z = ans 1%Z /\
+  map snd (knn_spec manhattan data 4 [1; 1; 1; 1]) = ans 1%Z.
+Proof. vm_compute. repeat split; reflexivity. Qed.
 
 (* the input on which the former test "pivot_idx * 2 < size" left the last two distances as 6, 4
    (finding knn:result-not-sorted, fixed): seven points, leaf size 3, k = 7 *)
